@@ -154,6 +154,25 @@ def GlobSet.matchesCandidate (s : GlobSet) (c : Candidate) : List Nat :=
 def setMatches (gs : List Glob) (p : Bytes) : List Nat :=
   (GlobSet.new gs).matchesCandidate (candidate p)
 
+/-- `into.clear()` -/
+def clearBuf (_into : List Nat) : List Nat := []
+
+/-- `GlobSet::matches_candidate_into` with the caller's buffer made explicit (the `*_into` functions write into a
+`Vec` the caller may reuse): the buffer is cleared FIRST, then comes the early exit for an empty set, then every
+strategy pushes, then `sort` + `dedup`.  Returns the buffer after the call. -/
+def GlobSet.matchesCandidateInto (s : GlobSet) (c : Candidate) (into : List Nat) : List Nat :=
+  let into := clearBuf into
+  if s.len == 0 then into else dedupAdj (sortNat (into ++ s.pushes c))
+
+/-- a history of `matches_into` calls that all reuse one buffer: each step builds a set (possibly with no glob
+at all: `GlobSet::empty()`, `GlobSetBuilder::new().build()`, `Default`) and asks about one path; the list of
+buffer contents after each call -/
+def intoHistory : List (List Glob × Bytes) → List Nat → List (List Nat)
+  | [], _ => []
+  | (gs, p) :: rest, buf =>
+    let r := (GlobSet.new gs).matchesCandidateInto (candidate p) buf
+    r :: intoHistory rest r
+
 /-- the answer of one strategy for one glob, as the (test-only) `GlobStrategic::is_match_candidate`
 states it; `GlobSet` spreads the same lookups over its tables -/
 def stratAnswer (g : Glob) (st : Strat) (c : Candidate) : Bool :=
